@@ -186,6 +186,18 @@ pub fn judge_c15(sys: &SimSys, stats: &mut Stats) -> JobOut {
     let Some(r) = run_or_panic(sys, stats) else { return out };
     out.events = r.evs.len() as u64;
     out.out_hash = hash_evs(&r.evs);
+    if sys.report_delay_us != (0, 0) || sys.trigger_delay_us != (0, 0) {
+        // integration delays: the matching clauses of the statement do not apply, the order of the returned trace does
+        stats.bump("runs_with_integration_delays_judged_for_time_order_only");
+        if sys.max_len > 0 && r.evs.len() >= sys.max_len {
+            stats.bump("runs_with_integration_delays_that_stopped_at_the_length_bound");
+        }
+        out.nontrivial = r.evs.len() > 2;
+        if let Some(k) = (1..r.evs.len()).find(|k| r.evs[*k].t < r.evs[*k - 1].t) {
+            out.viols.push(monitors::Viol { sig: "C15:order:integration".into(), msg: format!("returned trace not ordered by time under integration delays: event {k} at {}ns follows one at {}ns", r.evs[k].t, r.evs[k - 1].t), at: k });
+        }
+        return out;
+    }
     let cb = sys.trace.iter().filter(|p| p.1).count();
     let sb = sys.trace.len() - cb;
     let ended = if sys.api_sim { r.evs.len() < sys.max_len } else { sys.max_len == 0 && (sys.max_iter == 0 || r.evs.len() < sys.max_iter) };
@@ -766,8 +778,29 @@ pub fn worker_c15(ctx: &WorkerCtx) -> WorkerOut {
     let corp = corpus_systems(&sp, ctx.seed.wrapping_add(1015), if q { 3000 } else { 60000 }, &delays);
     let total1 = total0 + mass.len();
     let build = |i: usize| -> Option<SimSys> { if i >= total1 { Some(corp[i - total1].clone()) } else if i >= total0 { Some(mass[i - total0].clone()) } else { build(i) } };
-    let total = total1 + corp.len();
+    let total2 = total1 + corp.len();
+    // integration reporting / trigger delays on the client, the server or both, with every length bound from 0 (none) to 9:
+    // only the time order of what is returned is judged
+    let nint = if q { n / 401 } else { n / 41 };
+    let rds: [(u64, u64); 4] = [(3, 0), (0, 3), (3, 1), (1000, 1000)];
+    let build = |i: usize| -> Option<SimSys> {
+        if i < total2 {
+            return build(i);
+        }
+        let k = i - total2;
+        let j = pr.job((k / 20) * (if q { 401 } else { 41 }) % n);
+        if sp.traces[j.trace as usize].len() < 2 {
+            return None;
+        }
+        let mut s = sp.build(&j);
+        let rd = rds[(k / 10) % 2 * 2 + (k / 20) % 2];
+        if (k / 20) % 5 == 4 { s.trigger_delay_us = rd } else { s.report_delay_us = rd }
+        s.max_len = k % 10;
+        Some(s)
+    };
+    let total = total2 + nint * 20;
     let mut b = bounds(&sp, total, &delays);
+    b["systems_with_integration_delays_judged_for_time_order_only"] = json!(nint * 20);
     b["systems_with_over_a_thousand_packets_blocked_at_once"] = json!(mass.len());
     b["sampled_systems_of_generated_machines"] = json!(corp.len());
     let res = run_jobs("C15", total, &build, &judge_c15, ctx);
@@ -980,7 +1013,7 @@ pub fn peak_per_second(t: &[Pkt]) -> usize {
 
 pub fn worker_c14(ctx: &WorkerCtx) -> WorkerOut {
     let q = ctx.quick();
-    let mut all_traces = c14_traces(if q { 4 } else { 5 });
+    let mut all_traces = c14_traces(if q { 5 } else { 6 });
     let n_short = all_traces.len();
     all_traces.extend(c14_long_traces(q));
     let sp = Space { traces: Arc::new(all_traces), lib: Arc::new(vec![]) };
